@@ -179,7 +179,7 @@ func c11History(ctx *core.Ctx, seed int64, hi, maxpend, steps int) core.Result {
 }
 
 func c11One(res *core.Result, seed int64, hi, maxpend int, dotu bool, cut, nheld int, cutKind string) {
-	cfg := Config{Dotu: dotu, Msize: 8192, Maxpend: maxpend, TracePoints: false}
+	cfg := Config{Dotu: dotu, Msize: 8192, Maxpend: maxpend, TracePoints: false, ProcOps: hi%3 == 2}
 	var scratch core.Result
 	h := NewHist(cfg, 1, &scratch, "C11") // connection 1 = bystander
 	s := h.S
